@@ -5,7 +5,8 @@ Theorems about `BytomModel.Node` (`Model/Node.lean`: `processBlock`, `saveBlock`
 `saveSubBlock`, the orphan manager, `authVerification`, `restart`), for ALL states, blocks,
 event sequences, block sets and permutations.  The model is the VALUE model of the orphan
 manager: `/repo` contains the repair of F9 (`GetPrevOrphans` hands out a copy, `Get` tolerates
-a removed entry), so the loop of `saveSubBlock` ranges over a list nobody mutates.
+a removed entry), so the loop of `saveSubBlock` ranges over a list nobody mutates; and the repair
+of F29 (c063377a): an orphan that `saveBlock` refuses inside `saveSubBlock` is dropped from the pool.
 
 Vocabulary (defined in `Lemmas/Node*.lean`):
 * `Universe` / `Coh U h` — ids are hashes: a header is a copy of the universe's block with that
@@ -16,7 +17,9 @@ Vocabulary (defined in `Lemmas/Node*.lean`):
 * `visit fuel` — the body of the `for` loop of `saveSubBlock` (`saveSubBlock_succ` is `rfl`).
 * `Desc os a x` — `x` is a pool member whose chain of parents inside the pool `os` leads to `a`.
 * `Refused R y` — `saveBlock` answered "error" for `y` in a state satisfying `R` where `y`'s
-  parent was stored; `SaveReach s` — the states reached from `s` by `saveBlock` calls.
+  parent was stored; `SaveReach s` / `RunReach s` — the states reached from `s` by the calls of
+  one `processBlock` / of a whole delivery run.
+* `NoLeft s` — no pool member of `s` has a stored parent.
 * `Accepting B Good` — a class of states closed under block processing in which `saveBlock`
   never refuses a `B`-block whose parent is stored; `NoFin U` / `PlainBlock U` — the concrete
   instance "no validator key, no header sup links, no verification messages".
@@ -104,13 +107,134 @@ theorem processBlock_pool_order {U : Universe} {s : State} (hI : Inv U s) {b : H
   rcases processBlock_cases s b with ⟨_, e, _⟩ | ⟨_, hnp, _⟩ | ⟨_, _, _, e⟩ | ⟨_, _, hok, e, _⟩
   · rw [e]
   · exact absurd hp hnp
-  · rw [e, (grow_saveBlock hI hb).pool]; exact List.filter_sublist
+  · rw [e]; exact (grow_saveBlock hI hb).sub
   · rw [e]
     simp only [tryReorganize_orphans]
     have g1 := grow_saveBlock hI hb
     have g2 := ssb_grow g1.inv ((stored_saveBlock_true hok _).mpr (Or.inl rfl)) (s.saveBlock b).1.fuel
-    unfold connect
-    rw [(g1.trans g2).pool]; exact List.filter_sublist
+    exact (g1.trans g2).sub
+
+/-! ## 1b. no orphan whose parent is stored — an invariant of every history, no acceptance hypothesis -/
+
+/-- the fuel hypothesis of `connection` holds whenever every pool member is a defined block (the
+    engine defines a block before it delivers it) -/
+theorem pool_le_defs {U : Universe} {s : State} (hI : Inv U s)
+    (hd : ∀ o ∈ s.orphans, o.id ∈ s.defs.map (·.id)) : s.orphans.length ≤ s.defs.length := by
+  have h1 : (s.orphans.map (·.id)).Subperm (s.defs.map (·.id)) :=
+    List.subperm_of_subset hI.pool.nodup (fun i hi => by
+      obtain ⟨o, ho, e⟩ := List.mem_map.mp hi
+      exact e ▸ hd o ho)
+  simpa using h1.length_le
+
+/-- … and "every pool member is a defined block" is preserved by the delivery of a defined block;
+    `defs` is not touched -/
+theorem poolDefined_processBlock {U : Universe} {s : State} (hI : Inv U s) {b : Header} (hb : Coh U b)
+    (hd : ∀ o ∈ s.orphans, o.id ∈ s.defs.map (·.id)) (hbd : b.id ∈ s.defs.map (·.id)) :
+    (s.processBlock b).1.defs = s.defs ∧
+    ∀ o ∈ (s.processBlock b).1.orphans, o.id ∈ (s.processBlock b).1.defs.map (·.id) := by
+  rcases processBlock_cases s b with ⟨_, e, _⟩ | ⟨_, _, e⟩ | ⟨_, _, _, e⟩ | ⟨_, _, hok, e, _⟩
+  · rw [e]; exact ⟨rfl, hd⟩
+  · rw [e]
+    refine ⟨(orphanAdd_poolOnly s b).defs, ?_⟩
+    intro o ho
+    rw [(orphanAdd_poolOnly s b).defs]
+    rw [orphanAdd_orphans] at ho
+    split at ho
+    · exact hd o ho
+    · rcases List.mem_append.mp ho with h | h
+      · exact hd o h
+      · simp at h; subst h; exact hbd
+  · rw [e]
+    have g := grow_saveBlock hI hb
+    refine ⟨g.defs, ?_⟩
+    intro o ho
+    rw [g.defs]
+    exact hd o (g.mem ho)
+  · rw [e]
+    have g1 := grow_saveBlock hI hb
+    have g2 := ssb_grow g1.inv ((stored_saveBlock_true hok _).mpr (Or.inl rfl)) (s.saveBlock b).1.fuel
+    have g := g1.trans g2
+    simp only [tryReorganize_orphans, tryReorganize_defs]
+    refine ⟨g.defs, ?_⟩
+    intro o ho
+    have hd' : (connect s b).defs = s.defs := g.defs
+    rw [hd']
+    exact hd o (g.mem ho)
+
+/-- every pool member was defined (the engine defines a block before it delivers it); this bounds the
+    pool by the model's recursion fuel -/
+def PoolDefined (s : State) : Prop := ∀ o ∈ s.orphans, o.id ∈ s.defs.map (·.id)
+
+/-- delivered blocks are defined blocks -/
+def EventDefined (defs : List Header) : Event → Prop
+  | .deliver b => b.id ∈ defs.map (·.id)
+  | _ => True
+
+theorem stored_authVerification (s : State) (order src tgt : Nat) (sigOk : Bool) (i : Nat) :
+    stored (s.authVerification order src tgt sigOk).1 i ↔ stored s i := by
+  obtain ⟨_, _, _, _, hh | ⟨th, sup, ht, hh⟩⟩ := authVerification_frame s order src tgt sigOk
+  · rw [stored_iff, stored_iff, hh]
+  · obtain ⟨htm, hid⟩ := lookupHeader_some ht
+    subst hid
+    rw [stored_iff, stored_iff, hh, mem_cons_filter_ids { th with sup := sup } s.headers i]
+    constructor
+    · rintro (e | e)
+      · rw [e]; exact List.mem_map.mpr ⟨th, htm, rfl⟩
+      · exact e
+    · exact Or.inr
+
+/-- **`no_orphan_with_stored_parent`, one event**: after `processBlock`, a verification message or a
+    restart no pool member has a stored parent (a refused orphan is dropped, not left behind) -/
+theorem no_orphan_with_stored_parent_step {U : Universe} {s : State} (hI : Inv U s) (hNL : NoLeft s)
+    (hPD : PoolDefined s) {e : Event} (he : EventOk U e) (hd : EventDefined s.defs e) :
+    NoLeft (step s e) ∧ PoolDefined (step s e) ∧ (step s e).defs = s.defs := by
+  cases e with
+  | deliver b =>
+    have h1 := poolDefined_processBlock hI he hPD hd
+    exact ⟨noLeft_processBlock hI hNL he (pool_le_defs hI hPD), h1.2, h1.1⟩
+  | vote o a t g =>
+    obtain ⟨ho, _, _, hdefs, _⟩ := authVerification_frame s o a t g
+    simp only [step]
+    refine ⟨?_, ?_, hdefs⟩
+    · intro x hx
+      rw [stored_authVerification]
+      rw [ho] at hx
+      exact hNL x hx
+    · intro x hx
+      rw [hdefs]
+      rw [ho] at hx
+      exact hPD x hx
+  | restart =>
+    simp only [step]
+    cases h : s.restart with
+    | none => exact ⟨hNL, hPD, rfl⟩
+    | some s' =>
+      obtain ⟨ho, _, _, _, hdefs⟩ := restart_frame h
+      refine ⟨?_, ?_, hdefs⟩
+      · intro x hx; rw [ho] at hx; simp at hx
+      · intro x hx; rw [ho] at hx; simp at hx
+
+/-- **`no_orphan_with_stored_parent`**: an invariant over ALL event sequences (deliveries of copies of
+    defined blocks with any sup links, verification messages, restarts), for any configuration -/
+theorem no_orphan_with_stored_parent {U : Universe} (es : List Event) :
+    ∀ {s : State}, Inv U s → NoLeft s → PoolDefined s → (∀ e ∈ es, EventOk U e ∧ EventDefined s.defs e) →
+      NoLeft (run s es) ∧ Inv U (run s es) ∧ PoolDefined (run s es) := by
+  induction es with
+  | nil => intro s hI hNL hPD _; exact ⟨hNL, hI, hPD⟩
+  | cons e es ih =>
+    intro s hI hNL hPD hall
+    obtain ⟨he, hd⟩ := hall e (by simp)
+    obtain ⟨h1, h2, h3⟩ := no_orphan_with_stored_parent_step hI hNL hPD he hd
+    exact ih (inv_step hI he) h1 h2 (fun e' he' => by rw [h3]; exact hall e' (by simp [he']))
+
+/-- … in particular for every history from the initial state -/
+theorem no_orphan_with_stored_parent_init {U : Universe} (cfg : Config) {g : Header} (hg : Coh U g) (h0 : g.height = 0)
+    (defs : List Header) (es : List Event) (hall : ∀ e ∈ es, EventOk U e ∧ EventDefined defs e) :
+    NoLeft (run { State.init cfg g with defs := defs } es) := by
+  have hI : Inv U ({ State.init cfg g with defs := defs } : State) := (inv_init cfg hg h0).of_eq rfl rfl rfl
+  refine (no_orphan_with_stored_parent es hI ?_ ?_ hall).1
+  · intro o ho; simp [State.init] at ho
+  · intro o ho; simp [State.init] at ho
 
 /-! ## 2. no panic; the loop over the waiting children -/
 
@@ -146,13 +270,13 @@ theorem saveSubBlock_visits_each_waiting_child_once {U : Universe} {s : State} (
   ⟨saveSubBlock_eq_fold hI fuel a, group_nodup hI.pool.nodup a, fun _ => mem_group,
    fun _ _ _ hw => waiting_child_present hI ha fuel hw⟩
 
-/-- `saveSubBlock` keeps the invariant and only moves pool members into the store, whatever the fuel -/
+/-- `saveSubBlock` keeps the invariant, the store only grows and the pool only shrinks (arrival order
+    kept), whatever the fuel -/
 theorem saveSubBlock_grow {U : Universe} {s : State} (hI : Inv U s) {a : Nat} (ha : stored s a) (fuel : Nat) :
     Inv U (State.saveSubBlock fuel s a) ∧
     (∀ i, stored s i → stored (State.saveSubBlock fuel s a) i) ∧
-    (State.saveSubBlock fuel s a).orphans =
-      s.orphans.filter (fun h => !((State.saveSubBlock fuel s a).header h.id).isSome) :=
-  ⟨(ssb_grow hI ha fuel).inv, (ssb_grow hI ha fuel).mono, (ssb_grow hI ha fuel).pool⟩
+    (State.saveSubBlock fuel s a).orphans.Sublist s.orphans :=
+  ⟨(ssb_grow hI ha fuel).inv, (ssb_grow hI ha fuel).mono, (ssb_grow hI ha fuel).sub⟩
 
 /-! ## 3. the connection theorem -/
 
@@ -161,57 +285,19 @@ theorem saveSubBlock_grow {U : Universe} {s : State} (hI : Inv U s) {a : Nat} (h
     list of defined blocks (the model's recursion fuel; Go recurses without bound).  Then after
     `processBlock b`, `b` is stored, and every pool member `x` whose chain of parents leads
     (inside the pool) to `b` is stored and no longer in the pool — **unless** `saveBlock` refused
-    `x` or a block `y` on that chain: then `y` is still in the pool although its parent is stored
-    (this is open finding F29), and the refusal happened in a state reached by `saveBlock` calls. -/
+    `x` or a block `y` on that chain: then `y` is neither stored nor in the pool any more (it was
+    dropped; before the repair of F29 it stayed in the pool although its parent is stored), and the
+    refusal happened in a state reached by the calls of this `processBlock`. -/
 theorem connection {U : Universe} {s : State} (hI : Inv U s) {b : Header} (hb : Coh U b)
     (hp : stored s b.parent) (hne : ¬ Early s b) (hok : (s.saveBlock b).2 = true)
     (hfuel : s.orphans.length ≤ s.defs.length) :
     stored (s.processBlock b).1 b.id ∧
     ∀ x, Desc s.orphans b.id x →
       (stored (s.processBlock b).1 x.id ∧ x ∉ (s.processBlock b).1.orphans) ∨
-      ∃ y, Desc s.orphans b.id y ∧ (y = x ∨ Desc s.orphans y.id x) ∧ y ∈ (s.processBlock b).1.orphans ∧
-        stored (s.processBlock b).1 y.parent ∧ Refused (SaveReach (s.saveBlock b).1) y :=
+      ∃ y, Desc s.orphans b.id y ∧ (y = x ∨ Desc s.orphans y.id x) ∧ y ∉ (s.processBlock b).1.orphans ∧
+        ¬ stored (s.processBlock b).1 y.id ∧ stored (s.processBlock b).1 y.parent ∧
+        Refused (SaveReach (s.saveBlock b).1) y :=
   processBlock_connects hI hb hp hne hok hfuel
-
-/-- the fuel hypothesis of `connection` holds whenever every pool member is a defined block (the
-    engine defines a block before it delivers it) -/
-theorem pool_le_defs {U : Universe} {s : State} (hI : Inv U s)
-    (hd : ∀ o ∈ s.orphans, o.id ∈ s.defs.map (·.id)) : s.orphans.length ≤ s.defs.length := by
-  have h1 : (s.orphans.map (·.id)).Subperm (s.defs.map (·.id)) :=
-    List.subperm_of_subset hI.pool.nodup (fun i hi => by
-      obtain ⟨o, ho, e⟩ := List.mem_map.mp hi
-      exact e ▸ hd o ho)
-  simpa using h1.length_le
-
-/-- … and "every pool member is a defined block" is preserved by the delivery of a defined block -/
-theorem poolDefined_processBlock {U : Universe} {s : State} (hI : Inv U s) {b : Header} (hb : Coh U b)
-    (hd : ∀ o ∈ s.orphans, o.id ∈ s.defs.map (·.id)) (hbd : b.id ∈ s.defs.map (·.id)) :
-    ∀ o ∈ (s.processBlock b).1.orphans, o.id ∈ (s.processBlock b).1.defs.map (·.id) := by
-  rcases processBlock_cases s b with ⟨_, e, _⟩ | ⟨_, _, e⟩ | ⟨_, _, _, e⟩ | ⟨_, _, hok, e, _⟩
-  · rw [e]; exact hd
-  · rw [e]
-    intro o ho
-    rw [(orphanAdd_poolOnly s b).defs]
-    rw [orphanAdd_orphans] at ho
-    split at ho
-    · exact hd o ho
-    · rcases List.mem_append.mp ho with h | h
-      · exact hd o h
-      · simp at h; subst h; exact hbd
-  · rw [e]
-    have g := grow_saveBlock hI hb
-    intro o ho
-    rw [g.defs]
-    exact hd o ((g.mem_orphans o).mp ho).1
-  · rw [e]
-    have g1 := grow_saveBlock hI hb
-    have g2 := ssb_grow g1.inv ((stored_saveBlock_true hok _).mpr (Or.inl rfl)) (s.saveBlock b).1.fuel
-    have g := g1.trans g2
-    intro o ho
-    simp only [tryReorganize_orphans, tryReorganize_defs] at ho ⊢
-    unfold connect at ho ⊢
-    rw [g.defs]
-    exact hd o ((g.mem_orphans o).mp ho).1
 
 /-- when `saveBlock` refuses `b` itself, `processBlock` answers `err`, `b` is neither stored anew nor
     put into the pool, and the pool is untouched -/
@@ -288,8 +374,79 @@ theorem delivery_order_general {U : Universe} {B : Header → Prop} {Good : Stat
   obtain ⟨h1, h2, h3, h4, _⟩ := delivery_general hA hI0 hG0 he hv hnd hfresh hdefs hσ
   exact ⟨h1, h2, fun o ho => ⟨h3 o ho, h4 o ho⟩⟩
 
-/-- the full statement for histories from the initial state: ANY configuration, blocks may carry
-    header sup links -/
+/-- **the unconditional part of the delivery-order statement** (any configuration, sup links allowed, no
+    acceptance hypothesis): after delivering a valid parent-closed block set in ANY order, no pool
+    member has a stored parent, and every block of the set is
+    * stored, or
+    * was refused by `saveBlock` (parent stored at that moment, in a state reached by the run) and is
+      neither stored nor left in the pool, or
+    * waits in the pool with an unstored parent below such a refused block (`Blocked`). -/
+theorem delivery_fate {U : Universe} {s0 : State} (hI0 : Inv U s0) (he : s0.orphans = []) {bs : List Header}
+    (hv : ∀ b ∈ bs, Valid U b) (hnd : (bs.map (·.id)).Nodup) (hfresh : ∀ b ∈ bs, ¬ stored s0 b.id)
+    (hclosed : ∀ b ∈ bs, stored s0 b.parent ∨ b.parent ∈ bs.map (·.id)) (hdefs : bs.length ≤ s0.defs.length)
+    {σ : List Header} (hσ : σ.Perm bs) :
+    NoLeft (run s0 (σ.map .deliver)) ∧
+    (∀ o ∈ (run s0 (σ.map .deliver)).orphans, o ∈ bs) ∧
+    ∀ b ∈ bs,
+      stored (run s0 (σ.map .deliver)) b.id ∨
+      (¬ stored (run s0 (σ.map .deliver)) b.id ∧ b ∉ (run s0 (σ.map .deliver)).orphans ∧
+        Refused (RunReach s0) b) ∨
+      (b ∈ (run s0 (σ.map .deliver)).orphans ∧ ¬ stored (run s0 (σ.map .deliver)) b.parent ∧
+        Blocked (RunReach s0) (run s0 (σ.map .deliver)) bs b) := by
+  have hrun : run s0 (σ.map .deliver) = σ.foldl deliver s0 := by
+    unfold run; rw [List.foldl_map]; rfl
+  rw [hrun]
+  obtain ⟨_, h2, h3, _, _, h6⟩ := BytomModel.Lemmas.NodeDelivery.delivery_fate hI0 he hv hnd hfresh hclosed hdefs hσ
+  exact ⟨h2, h3, h6⟩
+
+/-- `ancestor U n i`: the `n`-th ancestor of block `i`.
+    The tree root (last finalized checkpoint) of `st` is not among the ancestors-or-self of `x`'s parent
+    (the `n`-th ancestor, for `n` up to the parent's height): `x`'s branch conflicts with finality -/
+def ancestor (U : Universe) : Nat → Nat → Nat
+  | 0, i => i
+  | n + 1, i => ancestor U n (U.parent i)
+
+def ConflictsFinalized (U : Universe) (st : State) (x : Header) : Prop :=
+  ∀ n, n ≤ U.height x.parent → ancestor U n x.parent ≠ st.tree.ckpt.hash
+
+/-- the casper-side fact that would turn "refused" into "refused because the branch conflicts with a
+    finalized checkpoint": in the class `R`, `saveBlock` refuses a block whose parent is stored only
+    if the last finalized checkpoint is not on its branch.  It is NOT proved here for arbitrary
+    histories (it needs the structure of the checkpoint tree after pruning: C16/C17); it holds
+    vacuously in the no-finalization class (`refusal_only_by_finality_noFin`), and the real node is
+    checked for it on every run by the oracle `C12:not-connected`. -/
+def RefusalOnlyByFinality (U : Universe) (R : State → Prop) : Prop :=
+  ∀ st x, R st → stored st x.parent → (st.saveBlock x).2 = false → ConflictsFinalized U st x
+
+theorem refusal_only_by_finality_noFin (U : Universe) :
+    ∀ st x, NoFin U st → PlainBlock U x → stored st x.parent → (st.saveBlock x).2 = false →
+      ConflictsFinalized U st x := by
+  intro st x hg hx hp hf
+  have := (noFin_saveBlock hg hx hp).1
+  rw [this] at hf; cases hf
+
+/-- `delivery_fate` with the refusals explained, under that casper-side fact: every block is stored, or
+    its branch conflicted with finality when its turn came (and it is not left in the pool), or it
+    waits below such a block -/
+theorem delivery_fate_finality {U : Universe} {s0 : State} (hF : RefusalOnlyByFinality U (RunReach s0))
+    (hI0 : Inv U s0) (he : s0.orphans = []) {bs : List Header}
+    (hv : ∀ b ∈ bs, Valid U b) (hnd : (bs.map (·.id)).Nodup) (hfresh : ∀ b ∈ bs, ¬ stored s0 b.id)
+    (hclosed : ∀ b ∈ bs, stored s0 b.parent ∨ b.parent ∈ bs.map (·.id)) (hdefs : bs.length ≤ s0.defs.length)
+    {σ : List Header} (hσ : σ.Perm bs) :
+    ∀ b ∈ bs,
+      stored (run s0 (σ.map .deliver)) b.id ∨
+      (b ∉ (run s0 (σ.map .deliver)).orphans ∧ ∃ st, RunReach s0 st ∧ stored st b.parent ∧ ConflictsFinalized U st b) ∨
+      (b ∈ (run s0 (σ.map .deliver)).orphans ∧ ¬ stored (run s0 (σ.map .deliver)) b.parent) := by
+  intro b hb
+  rcases (delivery_fate hI0 he hv hnd hfresh hclosed hdefs hσ).2.2 b hb with h | ⟨_, h2, st, hr, hp, hf⟩ | ⟨h1, h2, _⟩
+  · exact Or.inl h
+  · exact Or.inr (Or.inl ⟨h2, st, hr, hp, hF st b hr hp hf⟩)
+  · exact Or.inr (Or.inr ⟨h1, h2⟩)
+
+/-- the statement "ALL blocks end up stored" for histories from the initial state, ANY configuration,
+    blocks may carry header sup links.  It is false (`c12_full_refuted`) — legitimately since the repair
+    of F29: a block whose branch conflicts with a finalized checkpoint must not be connected (C16).
+    What holds without hypotheses is `c12_unconditional` below. -/
 def c12_full : Prop :=
   ∀ (U : Universe) (cfg : Config) (g : Header) (bs σ : List Header),
     2 ≤ cfg.epoch → Coh U g → g.height = 0 →
@@ -325,6 +482,29 @@ theorem c12_partial (U : Universe) (cfg : Config) (g : Header) (bs σ : List Hea
   refine ⟨h1, h2, h3, fun i => ?_⟩
   rw [h4, hst0]
 
+/-- **the restated full statement, proved**: from the initial state, ANY configuration, blocks with any
+    sup links, any valid parent-closed block set, any order: no pool member has a stored parent, and
+    every block is stored, or was refused (and is not left in the pool), or waits with an unstored
+    parent below a refused block -/
+theorem c12_unconditional (U : Universe) (cfg : Config) (g : Header) (bs σ : List Header)
+    (hg : Coh U g) (h0 : g.height = 0)
+    (hv : ∀ b ∈ bs, Valid U b) (hnd : (bs.map (·.id)).Nodup) (hne : ∀ b ∈ bs, b.id ≠ g.id)
+    (hclosed : ∀ b ∈ bs, b.parent = g.id ∨ b.parent ∈ bs.map (·.id)) (hσ : σ.Perm bs) :
+    let s0 : State := { State.init cfg g with defs := bs ++ [g] }
+    let s' := run s0 (σ.map .deliver)
+    NoLeft s' ∧
+    ∀ b ∈ bs,
+      stored s' b.id ∨
+      (¬ stored s' b.id ∧ b ∉ s'.orphans ∧ Refused (RunReach s0) b) ∨
+      (b ∈ s'.orphans ∧ ¬ stored s' b.parent ∧ Blocked (RunReach s0) s' bs b) := by
+  intro s0 s'
+  have hst0 : ∀ i, stored s0 i ↔ i = g.id := by
+    intro i; rw [stored_iff]; simp [s0, State.init]
+  have hI0 : Inv U s0 := (inv_init cfg hg h0).of_eq rfl rfl rfl
+  have := delivery_fate hI0 rfl hv hnd (fun b hb hs => hne b hb ((hst0 _).mp hs))
+    (fun b hb => (hclosed b hb).imp (fun e => (hst0 _).mpr e) id) (by simp [s0]) hσ
+  exact ⟨this.1, this.2.2⟩
+
 /-- the order of delivery does not matter for the stored set (two permutations of one block set) -/
 theorem delivery_order_irrelevant {U : Universe} {B : Header → Prop} {Good : State → Prop} (hA : Accepting B Good)
     {s0 : State} (hI0 : Inv U s0) (hG0 : Good s0) (he : s0.orphans = []) {bs : List Header}
@@ -335,15 +515,17 @@ theorem delivery_order_irrelevant {U : Universe} {B : Header → Prop} {Good : S
   rw [(delivery_order hA hI0 hG0 he hv hnd hfresh hclosed hdefs hσ).2.2.2 i,
       (delivery_order hA hI0 hG0 he hv hnd hfresh hclosed hdefs hτ).2.2.2 i]
 
-/-! ## 5. the full statement is false on the unchanged tree: open finding F29
+/-! ## 5. "all blocks stored" is false, and the history of finding F29 now satisfies the property
 
 Epochs of 2 blocks, one validator, the node holds no key.  Chain 1-2-3-4 over genesis 0 and a fork
 block 5 on top of 1.  The delivered copy of 2 carries the validator's vote 0→2, the copy of 4 its
 vote 2→4.  Blocks 2, 3, 4, 5 arrive before 1.  When 1 arrives, `saveSubBlock` connects 2, 3, 4 —
 which justifies 4, finalizes 2 and prunes the checkpoint tree to the subtree of 2 — and then
-turns to 5, whose `saveBlock` is refused (its checkpoint is no longer in the tree).  5 stays in the
-pool although its parent 1 is stored.  The same history is `corpus/node/c12-f29-…txt`; the real
-node ends in the same state (oracle signature `C12:orphan-left-conflicting-with-finalized`). -/
+turns to 5, whose `saveBlock` is refused (its checkpoint is no longer in the tree: its branch
+conflicts with the finalized checkpoint 2).  Before the repair c063377a block 5 stayed in the pool
+although its parent 1 is stored (finding F29, oracle signature
+`C12:orphan-left-conflicting-with-finalized`); now it is dropped.  The same history is
+`corpus/node/c12-f29-…txt`; the real node ends in the same state. -/
 
 deriving instance DecidableEq for Header
 
@@ -364,14 +546,32 @@ def wσ : List Header := [w2, w3, w4, w5, w1]
 /-- the state the F29 history ends in (built by running the model) -/
 def wfinal : State := run { State.init wcfg wg with defs := wbs ++ [wg] } (wσ.map .deliver)
 
-/-- the F29 witness, evaluated by the kernel: 5 is still in the pool and in the waiting index under
-    its parent 1, 1 is stored, 5 is not, and the tree root is the finalized checkpoint 2 -/
+/-- the state in which block 5 is refused: inside `processBlock 1`, after `saveBlock 1` and after the
+    loop of `saveSubBlock` has visited the first waiting child 2 (and connected 3 and 4 under it) -/
+def wrefuse : State :=
+  let pre := run { State.init wcfg wg with defs := wbs ++ [wg] } ([w2, w3, w4, w5].map .deliver)
+  visit (pre.saveBlock w1).1.fuel (pre.saveBlock w1).1 2
+
+/-- the old F29 history, evaluated by the kernel: at the end the pool and the waiting index are empty
+    (nothing is left behind), 1-4 are stored, 5 is not — it was refused in `wrefuse`, where its parent
+    1 was stored and the tree root was the finalized checkpoint 2, which is not on 5's branch -/
 theorem f29_witness :
-    wfinal.orphans = [w5] ∧ wfinal.prevOrphans = [(1, [5])] ∧ stored wfinal 1 ∧ ¬ stored wfinal 5 ∧
+    wfinal.orphans = [] ∧ wfinal.prevOrphans = [] ∧ stored wfinal 1 ∧ ¬ stored wfinal 5 ∧
     wfinal.tree.ckpt.hash = 2 ∧ wfinal.tree.ckpt.status = .finalized ∧
-    wfinal.storeOrder = [0, 1, 2, 3, 4] := by
+    wfinal.storeOrder = [0, 1, 2, 3, 4] ∧
+    stored wrefuse w5.parent ∧ (wrefuse.saveBlock w5).2 = false ∧
+    wrefuse.tree.ckpt.hash = 2 ∧ wrefuse.tree.ckpt.status = .finalized ∧ wrefuse.orphans = [w5] := by
   unfold stored
   decide +kernel
+
+/-- 5's branch (5 → 1 → 0 → …) does not contain the finalized checkpoint 2 -/
+theorem w5_conflictsFinalized : ConflictsFinalized wU wrefuse w5 := by
+  intro n hn
+  rw [f29_witness.2.2.2.2.2.2.2.2.2.1]
+  have hn' : n ≤ 1 := hn
+  match n, hn' with
+  | 0, _ => decide
+  | 1, _ => decide
 
 theorem wbs_valid : ∀ b ∈ wbs, Valid wU b := by
   intro b hb
@@ -382,9 +582,19 @@ theorem c12_full_refuted : ¬ c12_full := by
   intro h
   have h' := h wU wcfg wg wbs wσ (by decide) ⟨rfl, rfl⟩ rfl wbs_valid (by decide) (by decide) (by decide)
     (List.perm_append_comm (l₁ := [w2, w3, w4, w5]) (l₂ := [w1]))
-  have h1 : wfinal.orphans = [] := h'.2.1
-  rw [f29_witness.1] at h1
-  cases h1
+  have h1 : stored wfinal w5.id := h'.1 w5 (by simp [wbs])
+  exact f29_witness.2.2.2.1 h1
+
+/-- … while the proved restatement holds for it: nothing is left in the pool, 1–4 are stored and 5 was
+    refused because of finality (this instance of `c12_unconditional` is a test, by evaluation) -/
+example : NoLeft wfinal ∧ (∀ b ∈ [w1, w2, w3, w4], stored wfinal b.id) ∧
+    (¬ stored wfinal w5.id ∧ w5 ∉ wfinal.orphans ∧ stored wrefuse w5.parent ∧ (wrefuse.saveBlock w5).2 = false ∧
+      ConflictsFinalized wU wrefuse w5) := by
+  refine ⟨?_, ?_, f29_witness.2.2.2.1, ?_, f29_witness.2.2.2.2.2.2.2.1, f29_witness.2.2.2.2.2.2.2.2.1,
+    w5_conflictsFinalized⟩
+  · intro o ho; rw [f29_witness.1] at ho; simp at ho
+  · unfold stored; decide +kernel
+  · rw [f29_witness.1]; simp
 
 /-! ## 6. the hypotheses of the theorems are satisfiable on non-trivial values (tests, by evaluation) -/
 
@@ -432,10 +642,13 @@ example : Inv wU (wpool.saveBlock w1).1 ∧ stored (wpool.saveBlock w1).1 1 ∧
     group (wpool.saveBlock w1).1.orphans 1 = [2, 5] :=
   ⟨BytomModel.Lemmas.NodeOrphans.inv_saveBlock wpool_inv ⟨rfl, rfl⟩, by unfold stored; decide +kernel, by decide +kernel⟩
 
-/-- `connection_refused`: in the F29 end state a new block on top of 1 (below the finalized
-    checkpoint) is refused (a re-delivered copy of 5 itself is answered "already processed") -/
+/-- `connection_refused`: in the end state of the F29 history a new block on top of 1 (below the
+    finalized checkpoint) is refused; and a later child 7 of the dropped block 5 waits in the pool
+    with an unstored parent (the third alternative of `delivery_fate`) -/
 def w6 : Header := { id := 6, parent := 1, height := 2, slot := 4, rank := 0, sup := [] }
-example : stored wfinal w6.parent ∧ ¬ Early wfinal w6 ∧ (wfinal.saveBlock w6).2 = false ∧ Early wfinal w5 := by
+def w7 : Header := { id := 7, parent := 5, height := 3, slot := 5, rank := 0, sup := [] }
+example : stored wfinal w6.parent ∧ ¬ Early wfinal w6 ∧ (wfinal.saveBlock w6).2 = false ∧
+    (wfinal.processBlock w7).1.orphans = [w7] ∧ ¬ stored (wfinal.processBlock w7).1 w7.parent := by
   unfold stored Early bestHeight
   decide +kernel
 
